@@ -209,4 +209,153 @@ def chordFunction (name key : Str) : Except Err (List Str) :=
     | some r => pure r
     | .none => throw .index
 
+/-! ### Chord recognition (`determine` and its helpers) -/
+structure Hit where
+  short : Str
+  tries : Nat
+  root : Str
+  deriving DecidableEq, Repr
+
+/-- `determine_triad`'s if/elif table: concatenated interval shorthands ↦ chord shorthand -/
+def triadTable : List (Str × Str) :=
+  [(s "25", s "sus2"), (s "3b7", s "dom7"), (s "3b5", s "7b5"), (s "35", s "M"), (s "3#5", s "aug"), (s "36", s "M6"),
+   (s "37", s "M7"), (s "b3b5", s "dim"), (s "b35", s "m"), (s "b36", s "m6"), (s "b3b7", s "m7"), (s "b37", s "m/M7"),
+   (s "45", s "sus4"), (s "5b7", s "m7"), (s "57", s "M7")]
+/-- `determine_seventh`: (triad name, interval root→4th note) ↦ chord shorthand -/
+def seventhTable : List (Str × Str × Str) :=
+  [(s "m", s "minor seventh", s "m7"), (s "m", s "major seventh", s "m/M7"), (s "m", s "major sixth", s "m6"),
+   (s "M", s "major seventh", s "M7"), (s "M", s "minor seventh", s "7"), (s "M", s "major sixth", s "M6"),
+   (s "dim", s "minor seventh", s "m7b5"), (s "dim", s "diminished seventh", s "dim7"),
+   (s "aug", s "minor seventh", s "m7+"), (s "aug", s "major seventh", s "M7+"),
+   (s "sus4", s "minor seventh", s "sus47"), (s "sus4", s "minor second", s "sus4b9"),
+   (s "m7", s "perfect fourth", s "11"), (s "7b5", s "minor seventh", s "7b5")]
+def ext5Table : List (Str × Str × Str) :=
+  [(s "M7", s "major second", s "M9"), (s "m7", s "major second", s "m9"), (s "m7", s "perfect fourth", s "m11"),
+   (s "7", s "major second", s "9"), (s "7", s "minor second", s "7b9"), (s "7", s "augmented second", s "7#9"),
+   (s "7", s "minor third", s "7b12"), (s "7", s "augmented fourth", s "7#11"), (s "7", s "major sixth", s "13"),
+   (s "M6", s "major second", s "6/9"), (s "M6", s "minor seventh", s "6/7")]
+def ext6Table : List (Str × Str × Str) :=
+  [(s "9", s "perfect fourth", s "11"), (s "9", s "augmented fourth", s "7#11"), (s "9", s "major sixth", s "13"),
+   (s "m9", s "perfect fourth", s "m11"), (s "m9", s "major sixth", s "m13"), (s "M9", s "perfect fourth", s "M11"),
+   (s "M9", s "major sixth", s "M13")]
+def ext7Table : List (Str × Str × Str) :=
+  [(s "11", s "major sixth", s "13"), (s "m11", s "major sixth", s "m13"), (s "M11", s "major sixth", s "M13")]
+/-- `int_desc` -/
+def intDesc : List (Nat × Str) :=
+  [(1, s ""), (2, s ", first inversion"), (3, s ", second inversion"), (4, s ", third inversion"),
+   (5, s ", fourth inversion"), (6, s ", fifth inversion"), (7, s ", sixth inversion")]
+
+def lookup2 (t : List (Str × Str × Str)) (a b : Str) : Option Str :=
+  (t.find? (fun r => r.1 == a && r.2.1 == b)).map (·.2.2)
+
+/-- `[chord[-1]] + chord[:-1]` -/
+def rotR (c : List Str) : List Str :=
+  match c.getLast? with
+  | some x => x :: c.dropLast
+  | .none => []
+
+/-- one line of the result-formatting loop shared by all recognisers -/
+def fmtOne (short : Bool) (h : Hit) : Except Err Str :=
+  if short then .ok (h.root ++ h.short)
+  else match chordMeaning.lookup h.short with
+    | .none => .error .key
+    | some m => match intDesc.lookup h.tries with
+      | .none => .error .type
+      | some d => .ok (h.root ++ m ++ d)
+
+def fmt (short : Bool) (hits : List Hit) : Except Err (List Str) := hits.mapM (fmtOne short)
+
+def triadStep (c : List Str) (tries : Nat) : Except Err (List Hit) :=
+  match c with
+  | [a, b, d] => do
+    let i1 ← Intervals.determine a b true
+    let i2 ← Intervals.determine a d true
+    pure (match triadTable.lookup (i1 ++ i2) with
+      | some n => [⟨n, tries, a⟩]
+      | .none => [])
+  | _ => .error .other
+
+/-- generic inversion exhauster: run `step` on every right-rotation until `tries = last` -/
+def exhaust (step : List Str → Nat → Except Err (List Hit)) (last : Nat) (noInv : Bool) :
+    Nat → List Str → Nat → Except Err (List Hit)
+  | 0, _, _ => .ok []
+  | f+1, c, tries => do
+    let h ← step c tries
+    if tries != last && !noInv then do
+      let r ← exhaust step last noInv f (rotR c) (tries + 1)
+      pure (h ++ r)
+    else pure h
+
+def triadHits (noInv : Bool) (c : List Str) : Except Err (List Hit) := exhaust triadStep 3 noInv 3 c 1
+
+/-- names (without root) of the shorthand-form, root-position answers of a lower recogniser -/
+def stripRoot (root : Str) (names : List Str) : List Str := names.map (·.drop root.length)
+
+def extStep (lower : List Str → Except Err (List Hit)) (table : List (Str × Str × Str)) (k : Nat)
+    (c : List Str) (tries : Nat) : Except Err (List Hit) :=
+  match c[0]?, c[k]? with
+  | some r, some x => do
+    let lows ← lower (c.take k)
+    let lowNames ← fmt true lows
+    let iv ← Intervals.determine r x false
+    pure ((stripRoot r lowNames).filterMap fun nm => (lookup2 table nm iv).map fun res => ⟨res, tries, r⟩)
+  | _, _ => .error .other
+
+def seventhHits (noInv : Bool) (c : List Str) : Except Err (List Hit) :=
+  exhaust (extStep (triadHits true) seventhTable 3) 4 noInv 4 c 1
+/-- `determine_extended_chord5` also calls `determine_triad(chord[:3], True, True)` (result unused) -/
+def ext5Hits (noInv : Bool) (c : List Str) : Except Err (List Hit) :=
+  exhaust (fun c tries => do let _ ← triadHits true (c.take 3); extStep (seventhHits true) ext5Table 4 c tries) 5 noInv 5 c 1
+def ext6Hits (noInv : Bool) (c : List Str) : Except Err (List Hit) :=
+  exhaust (extStep (ext5Hits true) ext6Table 5) 6 noInv 6 c 1
+/-- `determine_extended_chord7` stops at `tries == 6` and ignores `no_inversions` -/
+def ext7Hits (c : List Str) : Except Err (List Hit) :=
+  exhaust (extStep (ext6Hits true) ext7Table 6) 6 false 6 c 1
+
+/-- `function_list[f](slice, True, True, True)` -/
+def polyPart (f : Nat) (slice : List Str) : Except Err (List Str) := do
+  let hits ← match f with
+    | 0 => triadHits true slice
+    | 1 => seventhHits true slice
+    | 2 => ext5Hits true slice
+    | 3 => ext6Hits true slice
+    | _ => ext7Hits slice
+  fmt true hits
+
+/-- `determine_polychords` -/
+def polychords (c : List Str) : Except Err (List Str) :=
+  let n := c.length
+  if n ≤ 3 ∨ n > 14 then .ok []
+  else
+    let nr := List.range (min (n - 3) 5)
+    nr.foldlM (fun (acc : List Str) (f : Nat) =>
+      nr.foldlM (fun (acc : List Str) (f2 : Nat) => do
+        let c1s ← polyPart f (c.drop (n - (3 + f)))
+        if c1s.isEmpty then pure acc
+        else do
+          let c2s ← polyPart f2 (c.take (f2 + 3))
+          pure (acc ++ c1s.flatMap fun a => c2s.map fun b => a ++ ['|'] ++ b)) acc) []
+
+/-- the recogniser selected by the chord's length (3 … 7 notes) -/
+def hitsFor (noInv : Bool) (c : List Str) : Except Err (List Hit) :=
+  if c.length = 3 then triadHits noInv c
+  else if c.length = 4 then seventhHits noInv c
+  else if c.length = 5 then ext5Hits noInv c
+  else if c.length = 6 then ext6Hits noInv c
+  else ext7Hits c
+
+/-- `chords.determine(chord, shorthand, no_inversions, no_polychords)`; for three notes `polychords` is empty -/
+def determine (c : List Str) (short noInv noPoly : Bool) : Except Err (List Str) :=
+  match c with
+  | [] => .ok []
+  | [a] => .ok [a]
+  | [a, b] => do let d ← Intervals.determine a b false; pure [d]
+  | _ =>
+    if c.length ≥ 8 then polychords c
+    else do
+      let h ← hitsFor noInv c
+      let r ← fmt short h
+      let p ← if noPoly then pure [] else polychords c
+      pure (r ++ p)
+
 end Mingus.Chords
